@@ -334,3 +334,6 @@ func RefTable(rd interface {
 	}
 	return out, nil
 }
+
+// Cur is the replica currently acting (its wall clock is the one git-bug reads).
+func (w *World) Cur() *Replica { return w.cur }
